@@ -137,14 +137,15 @@ def openmpt_files():
     for root, dirs, files in os.walk(base):
         dirs.sort()
         for f in sorted(files):
-            if MODULE_EXT.search(f):
+            if MODULE_EXT.search(f) and " " not in f:
                 out.append(os.path.join(root, f))
     return out
 
 
 def pick_modules(ck, n):
     # test-dev/data/f holds malformed files (loader regression inputs): they mostly fail to load
-    files = [f for f in vlib.corpus_files() if os.path.getsize(f) < 300000 and MODULE_EXT.search(f) and "/data/f/" not in f]
+    files = [f for f in vlib.corpus_files() if os.path.getsize(f) < 300000 and MODULE_EXT.search(f) and "/data/f/" not in f
+             and " " not in f]        # the replay text format is whitespace separated
     must = [REPO_DATA("storlek_01.it"), REPO_DATA("ode2ptk.mod"), REPO_DATA("scan_240_seq.it"), REPO_DATA("pattern_loop_liq.liq"),
             REPO_DATA("far_effect9.far"), REPO_DATA("far_effectF.far"), REPO_DATA("beep.oxm"),
             os.path.join(vlib.REPO, "test", "test.xm"), os.path.join(vlib.REPO, "test", "test.it")]
@@ -351,6 +352,8 @@ def check_restart_sweep(ck, exe, mods, fields, configs):
           "restart_cases": 0}
     dead_seen, hist_states, played_seen = {}, {}, {}
     for text, rc, out, err in vlib.pmap(one, jobs):
+        if rc == 2:
+            raise vlib.InfraError("c06_reset --replay rejected a sweep script:\n%s\n%s" % (text, err[-500:]))
         if rc != 0 and "REPLAY:" not in out:
             sig = vlib.sanitizer_signature(err)
             ck.violation("harness-abort:" + sig, {"harness": "c06_reset", "script": text, "stderr": err[-3000:]},
